@@ -90,6 +90,8 @@ def build(net):
         rows.sort()  # one sorted edge list instead of motif by motif
     for a, b, label in rows:
         G.add_edge(a, b, CoverLabel=label)
+    if net == "two-triangles":
+        G.add_nodes_from([90, 91])  # two isolated vertices: they count in N but belong to no motif
     return G
 
 
